@@ -40,6 +40,10 @@ EXPLANATION += ' Added: (R6) Molden `[Atoms]` line: the unit keyword (AU / Angs,
 TECHNIQUE += '; reader routines evaluated with marker factors (VASP header, GRO frame)'
 EXPLANATION += " Added: (R7) VASP cell and Cartesian positions carry scaling factor x angstrom, direct positions the cell's unit (C03-R22 with angstrom = 1000); (R8) GRO time in ps, positions and box in nm, velocities in nm/ps however the numbers are written (C03-R23 with marker factors)."
 # --- end metadata batch 8
+# --- metadata added after the round-3 refactoring twins
+TECHNIQUE += '; whole evaluation of the VASP header reader for the coordinate mode'
+EXPLANATION += ' R4: the VASP header reader is interpreted as a whole on model files for every first character of the mode line, with and without a selective-dynamics line; Cartesian and direct reading give different positions of the model atom.'
+# --- end metadata round-3 twins
 TRUSTED = ["CPython ast parser", "frozen unit oracle (DESIGN.md Appendix A; format specifications)", "frozen CODATA 2018 values in spec/codata.json"]
 
 # non-plain reader slots: (module, key path) -> expected tag text.  Everything else must be plain.
